@@ -5,7 +5,8 @@ from ._util import _skip_id
 
 class InlineGraph:
     def __call__(self, x, transform):
-        if isinstance(x, tracer.Graph):
+        if isinstance(x, tracer.Graph) and x.name is None:
+            # (A named graph is kept: its definition is what the generated code is expected to contain)
             output = _skip_id(x.output)
             if isinstance(output, tracer.Tracer) and isinstance(output.origin, tracer.signature.python.Call) and len(output.origin.kwargs) == 0:
                 function_inputs = [_skip_id(i) for i in output.origin.args]
